@@ -224,7 +224,7 @@ func judgeC18Silent(c C18Silent) *h.Verdict {
 
 func TestC18Silent(t *testing.T) {
 	h.Run(t, "C18", "silent", func(t *rapid.T) C18Silent {
-		return C18Silent{Subs: rapid.SampledFrom([]int{4, 6, 8}).Draw(t, "subs"), Reps: h.Scale(1, 3)}
+		return C18Silent{Subs: rapid.SampledFrom([]int{4, 6, 8}).Draw(t, "subs"), Reps: h.Scale(2, 3)}
 	}, judgeC18Silent)
 }
 
